@@ -1072,7 +1072,7 @@ impl Property for C06 {
     }
     fn post(&self, tier: Tier, seed: u64, root: &std::path::Path) -> Result<Value, Failure> {
         if tier == Tier::Thorough {
-            crate::fuzzapi::run_fuzz_campaign("C06", root, seed, 400_000, 8)
+            crate::fuzzapi::run_fuzz_campaign("C06", root, seed, 150_000, 8)
         } else {
             Ok(Value::Null)
         }
